@@ -10,4 +10,5 @@ REPO="${VERIF_REPO:-/repo}"
 ./bin/vrewrite -repo "$REPO" -verif "$(pwd)" -out "$(pwd)/build"
 (cd "$REPO" && go build -tags verif -overlay "$OLDPWD/build/overlay.json" -o "$OLDPWD/build/bin/vcheck" ./cmd/verifcheck)
 (cd "$REPO" && go build -race -tags verif -overlay "$OLDPWD/build/overlay.json" -o "$OLDPWD/build/bin/vcheck-race" ./cmd/verifcheck)
+(cd "$REPO" && go build -tags verif -overlay "$OLDPWD/build/overlay.json" -o "$OLDPWD/build/bin/olareg-verif" ./cmd/olareg)
 echo setup done
